@@ -263,7 +263,20 @@ func c19History(rng *rand.Rand, pn string, d dispatcher, db *descriptor.Database
 			hs = append(hs, "inm")
 		}
 		rec := httptest.NewRecorder()
-		candebug.ServeMessagesHTTP(rec, req, msgs)
+		if step%2 == 1 && len(ents) > 0 {
+			// overlapping requests: while this response is being written (on entry to its first WriteHeader/Write,
+			// before a byte is copied) two other requests are served completely - what a slow client next to a fast
+			// one amounts to, made deterministic by running the other requests inside the writer
+			other := []string{"/verif/", "/verif/" + ents[rng.Intn(len(ents))].md.Name}
+			candebug.ServeMessagesHTTP(&c19ReentrantWriter{ResponseRecorder: rec, intrude: func() {
+				for _, op := range other {
+					candebug.ServeMessagesHTTP(httptest.NewRecorder(), httptest.NewRequest(http.MethodGet, op, nil), msgs)
+				}
+			}}, req, msgs)
+			c19Overlapped++
+		} else {
+			candebug.ServeMessagesHTTP(rec, req, msgs)
+		}
 		if v := rec.Header().Get("Last-Modified"); v != "" {
 			lastModified = v
 		}
@@ -290,6 +303,34 @@ func c19History(rng *rand.Rand, pn string, d dispatcher, db *descriptor.Database
 		fmt.Fprintf(out, "PH %s %d.%d %s %s %s K=%d H=%s B=%s U=%d\n", pn, hid, step, c19Hex([]byte(req.URL.Path)), strings.Join(es, ","), hd,
 			rec.Code, c19Hex([]byte(rec.Header().Get("Content-Type"))), c19Hex(c19NormaliseTimes(rec.Body.Bytes(), times)), unchanged)
 	}
+}
+
+// c19ReentrantWriter: a ResponseWriter during whose first WriteHeader/Write call other requests are served to
+// completion before the bytes handed over are looked at (seeded change C19-w10-m2: the page buffer went back to a
+// sync.Pool before the write, so a request rendered meanwhile reused and overwrote it).
+type c19ReentrantWriter struct {
+	*httptest.ResponseRecorder
+	intrude func()
+	done    bool
+}
+
+var c19Overlapped int
+
+func (w *c19ReentrantWriter) once() {
+	if !w.done {
+		w.done = true
+		w.intrude()
+	}
+}
+
+func (w *c19ReentrantWriter) WriteHeader(code int) {
+	w.once()
+	w.ResponseRecorder.WriteHeader(code)
+}
+
+func (w *c19ReentrantWriter) Write(b []byte) (int, error) {
+	w.once()
+	return w.ResponseRecorder.Write(b)
 }
 
 func c19Hex(b []byte) string {
